@@ -30,9 +30,13 @@ type c13Obj struct {
 	ID                         string
 	Rect                       bool
 	Lat, Lon, Lat2, Lon2       float64
+	F                          int // field f (0 = none): for filtered nearest-neighbour queries
 }
 
 func (o c13Obj) setArgs(key string) []string {
+	if o.F > 0 && !o.Rect {
+		return []string{"SET", key, o.ID, "FIELD", "f", strconv.Itoa(o.F), "POINT", fnum(o.Lat), fnum(o.Lon)}
+	}
 	if o.Rect {
 		return []string{"SET", key, o.ID, "BOUNDS", fnum(o.Lat), fnum(o.Lon), fnum(o.Lat2), fnum(o.Lon2)}
 	}
@@ -214,7 +218,7 @@ func c13Query(res *Result, c *Cli, key string, objs []c13Obj, qlat, qlon float64
 }
 
 func checkC13(job *Job, res *Result) {
-	res.Rule = "SEQ: all datasets of <= 2 (thorough 3) objects from a 18-object catalogue (lattice points at poles / antimeridian, duplicates, 4 rectangles, 2 rectangles degenerate on one axis) each built by 5 histories (direct; moved into place; extras inserted and deleted; ids that first held an empty geometry; ids that first held a string / re-created), plus 4 datasets of 130 objects (antimeridian, pole, one shared latitude, one shared longitude); x 49 lattice query points (+ 6 off-lattice near the antimeridian); per query: full order, DISTANCE values, LIMIT k for every k <= 4, radius = each reported distance, 4 fixed radii; distinct = distinct (dataset, query point)"
+	res.Rule = "SEQ: all datasets of <= 2 (thorough 3) objects from a 18-object catalogue (lattice points at poles / antimeridian, duplicates, 4 rectangles, 2 rectangles degenerate on one axis) each built by 5 histories (direct; moved into place; extras inserted and deleted; ids that first held an empty geometry; ids that first held a string / re-created), plus 4 datasets of 130 objects (antimeridian, pole, one shared latitude, one shared longitude); x 49 lattice query points (+ 6 off-lattice near the antimeridian); per query: full order, DISTANCE values, LIMIT k for every k <= 4 (structure datasets: also k nearest among the objects passing a WHERE / MATCH / WHEREIN filter), radius = each reported distance, 4 fixed radii; distinct = distinct (dataset, query point)"
 	res.Assumptions = append(res.Assumptions, "distances on a sphere of radius 6371 km; tolerance 1e-6 relative + 1 m; order inversions count only beyond the tolerance; the distance of an extended object is the distance to its bounding rectangle")
 	cat := c13Catalogue()
 	maxN := 2
@@ -339,6 +343,7 @@ func checkC13(job *Job, res *Result) {
 				} else {
 					o = c13Obj{ID: fmt.Sprintf("s%03d", i), Lat: 84 + float64(i%13)*0.5, Lon: -180 + float64(i/13)*36}
 				}
+				o.F = 1 + i%3
 				objs = append(objs, o)
 			}
 			objs = append(objs, c13Obj{ID: "rect", Rect: true, Lat: -1, Lon: -179.9, Lat2: 1, Lon2: -178})
@@ -359,6 +364,51 @@ func checkC13(job *Job, res *Result) {
 				}
 				c13Query(res, c, "sk", objs, p.lat, p.lon, "structure", viol)
 				res.DistinctS(fmt.Sprint(region, p))
+				// nearest neighbours among the objects that pass a filter: the k closest MATCHING ones
+				for _, flt := range []struct {
+					args []string
+					keep func(o c13Obj) bool
+				}{
+					{[]string{"WHERE", "f", "2", "2"}, func(o c13Obj) bool { return o.F == 2 }},
+					{[]string{"MATCH", "s0[0-4]*"}, func(o c13Obj) bool { return len(o.ID) == 4 && o.ID[1] == '0' && o.ID[2] <= '4' }},
+					{[]string{"WHEREIN", "f", "2", "1", "3", "MATCH", "s*"}, func(o c13Obj) bool { return o.F == 1 || o.F == 3 }},
+				} {
+					var sub []c13Obj
+					for _, o := range objs {
+						if flt.keep(o) {
+							sub = append(sub, o)
+						}
+					}
+					sort.Slice(sub, func(i, j int) bool { return sub[i].dist(p.lat, p.lon) < sub[j].dist(p.lat, p.lon) })
+					in := map[string]bool{}
+					for _, o := range sub {
+						in[o.ID] = true
+					}
+					for _, k := range []int{1, 3, 10, len(sub), len(sub) + 5} {
+						args := append(append([]string{"NEARBY", "sk"}, flt.args...), "LIMIT", strconv.Itoa(k), "DISTANCE", "IDS", "POINT", fnum(p.lat), fnum(p.lon))
+						h, ok := c13Parse(c.Do(args...))
+						res.Evaluations++
+						wantN := k
+						if wantN > len(sub) {
+							wantN = len(sub)
+						}
+						if !ok || len(h) != wantN {
+							viol("filtered-limit-k-size:structure", fmt.Sprintf("%v returned %d items, %d objects pass the filter", args, len(h), len(sub)))
+							continue
+						}
+						kth := sub[wantN-1].dist(p.lat, p.lon)
+						for i, e := range h {
+							if !in[e.ID] {
+								viol("filtered-returns-non-matching:structure", fmt.Sprintf("%v returned %s which does not pass the filter", args, e.ID))
+							} else if e.Dist > kth+c13Tol(kth) {
+								viol("filtered-limit-k-not-closest:structure", fmt.Sprintf("%v returned %s at %.3f m although the %d closest matching objects are within %.3f m", args, e.ID, e.Dist, wantN, kth))
+							}
+							if i > 0 && h[i-1].Dist > e.Dist+c13Tol(e.Dist) {
+								viol("filtered-order:structure", fmt.Sprintf("%v returns %s (%.3f m) before %s (%.3f m)", args, h[i-1].ID, h[i-1].Dist, e.ID, e.Dist))
+							}
+						}
+					}
+				}
 			}
 			res.States++
 		}
